@@ -63,6 +63,17 @@ def _pairwise(it):
     return list(zip(it, it[1:]))
 
 
+def _opfn(fn):
+    fn._fde_ok = True
+    return fn
+
+
+# operator.* functions that are exact on concrete values (the evaluator refuses abstract operands through the TypeError of the stand-in)
+_OPERATOR_FNS = {'contains': _opfn(lambda a, b: b in a), 'getitem': _opfn(lambda a, b: a[b]), 'eq': _opfn(lambda a, b: a == b), 'ne': _opfn(lambda a, b: a != b),
+                 'not_': _opfn(lambda a: not a), 'truth': _opfn(lambda a: bool(a)), 'is_': _opfn(lambda a, b: a is b), 'is_not': _opfn(lambda a, b: a is not b),
+                 'add': _opfn(lambda a, b: a + b), 'lt': _opfn(lambda a, b: a < b), 'le': _opfn(lambda a, b: a <= b), 'gt': _opfn(lambda a, b: a > b), 'ge': _opfn(lambda a, b: a >= b)}
+
+
 # pure stdlib helpers that only rearrange their (concrete) arguments; results are lists (consumers iterate them once)
 _PURE_ITER = {'itertools.chain': _chain, 'chain': _chain, 'itertools.islice': _islice, 'islice': _islice, 'itertools.pairwise': _pairwise, 'pairwise': _pairwise,
               'itertools.chain.from_iterable': lambda its: _chain(*its), 'chain.from_iterable': lambda its: _chain(*its)}
@@ -148,6 +159,13 @@ def _lazy_ok(fn):
                     return False
                 q = getattr(q, '_parent', None)
     return True
+
+
+class CMGen:
+    """a started-on-demand context manager: the generator of a @contextmanager function of the package"""
+
+    def __init__(self, gen):
+        self.gen = gen
 
 
 class EnumMember:
@@ -248,6 +266,7 @@ class FDE:
         self._yields = []
         self._eager_node = None
         self._gen_once = False
+        self._cm_once = False
         self.free = {}           # free name -> plain value (e.g. a model of __builtins__)
         self.extcalls = {}       # dotted name -> python callable standing in for an external function (e.g. inspect.signature)
 
@@ -307,6 +326,10 @@ class FDE:
             body = fi.node.body if isinstance(fi.node.body, list) else [ast.Return(value=fi.node.body)]
             once, self._gen_once = self._gen_once, False
             gen = (self.generators or once) and isinstance(fi.node.body, list) and _is_generator_fn(fi.node)
+            cm_once, self._cm_once = self._cm_once, False
+            if cm_once and fi.is_contextmanager and isinstance(fi.node.body, list) and _is_generator_fn(fi.node):
+                # a @contextmanager function entered by a with statement: driven by that statement (set-up, body, tear-down)
+                return CMGen(self._gen_top(fi.node.body, env, fi))
             if not gen and isinstance(fi.node.body, list) and _is_generator_fn(fi.node) and not fi.is_contextmanager and _lazy_ok(fi.node):
                 # a generator function: its body runs lazily, interleaved with its consumer, as in Python
                 return self._gen_top(fi.node.body, env, fi)
@@ -333,7 +356,7 @@ class FDE:
             return lambda *a, **k: self._invoke(v.fi, [v.recv] + list(a), dict(k))
         if callable(v) and getattr(v, '_fde_ok', False):
             return v
-        if isinstance(v, tuple) and v and v[0] in ('unbound', 'ntclass'):
+        if isinstance(v, tuple) and v and v[0] in ('unbound', 'ntclass', 'partial'):
             return lambda *a, **k: self._apply(v, list(a), dict(k), ast.Name(id='<callback>', ctx=ast.Load()))
         raise Unsupported('callable %r' % (v,))
 
@@ -404,13 +427,52 @@ class FDE:
                 else:
                     self._run(s.finalbody, env, fi)
             elif isinstance(s, ast.With):
+                entered = []
                 for it in s.items:
-                    v = self._ev(it.context_expr, env, fi)
+                    self._cm_once = isinstance(it.context_expr, ast.Call)
+                    try:
+                        v = self._ev(it.context_expr, env, fi)
+                    finally:
+                        self._cm_once = False
                     self.effects.append(('with_enter', unparse(it.context_expr)))
+                    if isinstance(v, CMGen):
+                        try:
+                            v = next(v.gen), entered.append(v)
+                            v = v[0]
+                        except StopIteration:
+                            raise Raised('RuntimeError')
                     if it.optional_vars is not None:
                         self._assign(it.optional_vars, v, env, fi)
                 try:
-                    self._run(s.body, env, fi)
+                    try:
+                        self._run(s.body, env, fi)
+                    except Raised as r_:
+                        # the exception is thrown into the context managers (innermost first); one that swallows it ends the statement
+                        pending = r_
+                        for cm in reversed(entered):
+                            if pending is None:
+                                self._cm_exit(cm)
+                                continue
+                            try:
+                                cm.gen.throw(pending)
+                            except StopIteration:
+                                pending = None
+                            except Raised as r2:
+                                pending = r2
+                            else:
+                                raise Unsupported('context manager yields twice')
+                        entered = []
+                        if pending is not None:
+                            raise pending
+                    except (_Return, _Break, _Continue):
+                        for cm in reversed(entered):
+                            self._cm_exit(cm)
+                        entered = []
+                        raise
+                    else:
+                        for cm in reversed(entered):
+                            self._cm_exit(cm)
+                        entered = []
                 finally:
                     for it in s.items:
                         self.effects.append(('with_exit', unparse(it.context_expr)))
@@ -488,6 +550,13 @@ class FDE:
             else:
                 raise Unsupported('statement %s in %s' % (type(s).__name__, fi.qualname))
 
+    def _cm_exit(self, cm):
+        try:
+            next(cm.gen)
+        except StopIteration:
+            return
+        raise Unsupported('context manager yields twice')
+
     def _gen_top(self, stmts, env, fi):
         try:
             yield from self._run_gen(stmts, env, fi)
@@ -545,6 +614,35 @@ class FDE:
                         break
                 if not broke:
                     yield from self._run_gen(s.orelse, env, fi)
+            elif isinstance(s, ast.Try):
+                # (only reached for context-manager functions, which are driven explicitly: see the with statement)
+                try:
+                    try:
+                        yield from self._run_gen(s.body, env, fi)
+                    except Raised as r:
+                        h = self._handler_for(s.handlers, r.exc, fi)
+                        if h is None:
+                            raise
+                        if h.name:
+                            env[h.name] = Opaque('caught ' + str(r.exc))
+                        yield from self._run_gen(h.body, env, fi)
+                    else:
+                        yield from self._run_gen(s.orelse, env, fi)
+                finally:
+                    if any(isinstance(n, (ast.Yield, ast.YieldFrom)) for st in s.finalbody for n in ast.walk(st)):
+                        raise Unsupported('yield inside a finally block in %s' % fi.qualname)
+                    self._run(s.finalbody, env, fi)
+            elif isinstance(s, ast.With):
+                for it in s.items:
+                    v = self._ev(it.context_expr, env, fi)
+                    self.effects.append(('with_enter', unparse(it.context_expr)))
+                    if it.optional_vars is not None:
+                        self._assign(it.optional_vars, v, env, fi)
+                try:
+                    yield from self._run_gen(s.body, env, fi)
+                finally:
+                    for it in s.items:
+                        self.effects.append(('with_exit', unparse(it.context_expr)))
             else:
                 raise Unsupported('yield inside %s in %s' % (type(s).__name__, fi.qualname))
 
@@ -686,6 +784,9 @@ class FDE:
                     if key not in self.class_objs:
                         self.class_objs[key] = _re.compile(*[a.value for a in g.args])
                     return self.class_objs[key]
+                if isinstance(g, ast.Call) and unparse(g.func) in ('operator.methodcaller', 'methodcaller', 'operator.itemgetter', 'itemgetter', 'operator.attrgetter', 'attrgetter') \
+                        and fi.module.constant_binding(e.id) is g:
+                    return self._call(g, {}, fi)
                 if isinstance(g, ast.Lambda) and fi.module.constant_binding(e.id) is g:
                     from .srcmodel import FuncInfo
                     return ('closure', FuncInfo(g, fi.module), {})
@@ -711,12 +812,22 @@ class FDE:
                 return self.extcalls[unparse(e)]       # an external function used as a value (alias, table entry)
             if unparse(e) in self.externals:
                 return ('ext', self.externals[unparse(e)])
+            if isinstance(e.value, ast.Name) and e.value.id == 'operator' and e.value.id not in env and e.attr in _OPERATOR_FNS \
+                    and (fi is None or fi.module.imports.get('operator') == 'operator' or 'operator' not in fi.module.imports):
+                return _OPERATOR_FNS[e.attr]
             if unparse(e).startswith('collections.abc.') and not (isinstance(e.value, ast.Attribute) and isinstance(e.value.value, ast.Name) and e.value.value.id in env):
                 import collections.abc as _cabc
                 if hasattr(_cabc, e.attr):
                     return ('ext', getattr(_cabc, e.attr))       # (also what desugared match statements test sequences / mappings against)
             if isinstance(e.value, ast.Name) and (e.value.id, e.attr) in self.class_objs:
                 return self.class_objs[(e.value.id, e.attr)]
+            if isinstance(e.value, ast.Name) and e.value.id not in env and e.value.id in self.repo.classes:
+                ci_ = self.repo.classes[e.value.id]
+                if e.attr in ci_.attrs and any(b.split('.')[-1] in ('Enum', 'IntEnum', 'StrEnum', 'Flag', 'IntFlag') for b in ci_.base_exprs):
+                    if (ci_.name, e.attr) not in self.class_objs:
+                        ok_, v_ = fold_const(self.repo, ci_.attrs[e.attr], ci_.name)
+                        self.class_objs[(ci_.name, e.attr)] = EnumMember(ci_.name, e.attr, v_ if ok_ else Opaque('value of %s.%s' % (ci_.name, e.attr)))
+                    return self.class_objs[(ci_.name, e.attr)]
             ok, v = fold_const(self.repo, e)
             if ok:
                 return v
@@ -935,6 +1046,8 @@ class FDE:
             return a == b
         if isinstance(op, ast.NotEq):
             return a != b
+        if isinstance(op, (ast.In, ast.NotIn)) and isclass(b) and isinstance(a, EnumMember):
+            return (a.cls == b[1]) == isinstance(op, ast.In)
         if isinstance(op, ast.In):
             return a in b
         if isinstance(op, ast.NotIn):
@@ -1123,15 +1236,34 @@ class FDE:
             g_ = lambda o: (o[k_] if isinstance(o, (list, tuple, dict, str)) else self._apply_getitem(o, k_, e))  # noqa: E731
             g_._fde_ok = True
             return g_
+        if unparse(f) in ('functools.partial', 'partial') and args and not (isinstance(f, ast.Name) and f.id in env):
+            return ('partial', args[0], tuple(args[1:]), dict(kwargs))
+        if unparse(f) in ('itertools.count', 'count') and not kwargs and all(isinstance(a, int) for a in args) and not (isinstance(f, ast.Name) and f.id in env):
+            import itertools
+            return itertools.count(*args)
+        if unparse(f) in ('operator.methodcaller', 'methodcaller') and args and isinstance(args[0], str) and not (isinstance(f, ast.Name) and f.id in env):
+            m_, ma_, mk_ = args[0], list(args[1:]), dict(kwargs)
+
+            def g_(o):
+                call = ast.Call(func=ast.Attribute(value=ast.Name(id='$o', ctx=ast.Load()), attr=m_, ctx=ast.Load()),
+                                args=[ast.Name(id='$a%d' % i, ctx=ast.Load()) for i in range(len(ma_))],
+                                keywords=[ast.keyword(arg=k, value=ast.Name(id='$k_' + k, ctx=ast.Load())) for k in mk_])
+                env_ = {'$o': o}
+                env_.update({'$a%d' % i: v for i, v in enumerate(ma_)})
+                env_.update({'$k_' + k: v for k, v in mk_.items()})
+                return self._call(call, env_, fi)
+            g_._fde_ok = True
+            return g_
         if unparse(f) in ('operator.attrgetter', 'attrgetter') and len(args) == 1 and not kwargs and isinstance(args[0], str) and '.' not in args[0]:
             a_ = args[0]
             g_ = lambda o: self._attr(o, a_, fi)  # noqa: E731
             g_._fde_ok = True
             return g_
-        if unparse(f) in ('itertools.takewhile', 'takewhile', 'itertools.dropwhile', 'dropwhile', 'filter', 'map') and len(args) == 2 and isinstance(args[1], (list, tuple)) \
+        if unparse(f) in ('itertools.takewhile', 'takewhile', 'itertools.dropwhile', 'dropwhile', 'filter', 'map', 'itertools.filterfalse', 'filterfalse') and len(args) == 2 \
+                and (isinstance(args[1], (list, tuple, dict)) or type(args[1]).__name__ in _ITER_TYPES or (type(args[1]).__name__ == 'count' and unparse(f).endswith('takewhile'))) \
                 and not (isinstance(f, ast.Name) and f.id in env):
             import itertools
-            fn = {'takewhile': itertools.takewhile, 'dropwhile': itertools.dropwhile, 'filter': filter, 'map': map}[unparse(f).split('.')[-1]]
+            fn = {'takewhile': itertools.takewhile, 'dropwhile': itertools.dropwhile, 'filter': filter, 'map': map, 'filterfalse': itertools.filterfalse}[unparse(f).split('.')[-1]]
             pred = self.as_callable(args[0])
             if fn is map:
                 return [pred(x) for x in args[1]]
@@ -1229,6 +1361,8 @@ class FDE:
             if n in _PURE_BUILTINS and n not in env and all(_concrete(a) for a in args) and all(_concrete(v) for v in kwargs.values()):
                 try:
                     r = _PURE_BUILTINS[n](*args, **kwargs)
+                except (Raised, Unsupported, _Return, _Break, _Continue, Yielded):
+                    raise       # raised by the evaluated code itself while the builtin consumed a lazy generator
                 except Exception as ex:  # noqa
                     raise Raised(type(ex).__name__)
                 return list(r) if n in ('range', 'enumerate', 'zip', 'reversed', 'map', 'filter') else r
@@ -1245,9 +1379,10 @@ class FDE:
             if targets and n in self.stubs:
                 self.effects.append(('call', n, None, tuple(args), tuple(sorted(kwargs.items(), key=lambda kv: kv[0]))))
                 return self.stub(n, None, args, kwargs) if self.stub is not None else None
-            if n not in env and fi is not None and (fi.module.namedtuple_fields(n) is not None or isinstance(fi.module.constant_binding(n), ast.Lambda)):
+            if n not in env and fi is not None and n not in self.repo.classes and (fi.module.namedtuple_fields(n) is not None or isinstance(fi.module.constant_binding(n), ast.Lambda)
+                                                                                  or (isinstance(fi.module.constant_binding(n), ast.Call) and unparse(fi.module.constant_binding(n).func).split('.')[-1] in ('methodcaller', 'itemgetter', 'attrgetter'))):
                 return self._apply(self._ev(f, env, fi), args, kwargs, e)
-            if n in env and isinstance(env[n], tuple) and env[n] and env[n][0] in ('unbound', 'ntclass'):
+            if n in env and isinstance(env[n], tuple) and env[n] and env[n][0] in ('unbound', 'ntclass', 'partial'):
                 return self._apply(env[n], args, kwargs, e)
             if n in env and isinstance(env[n], Bound):
                 return self._apply(env[n], args, kwargs, e)
@@ -1357,6 +1492,8 @@ class FDE:
 
     def _apply(self, target, args, kwargs, e):
         """call of a function *value* (taken from a dispatch table, a local, a record class)"""
+        if isinstance(target, tuple) and target and target[0] == 'partial':
+            return self._apply(target[1], list(target[2]) + list(args), dict(target[3], **kwargs), e)
         if isinstance(target, tuple) and target and target[0] == 'closure':
             return self._invoke(target[1], args, kwargs, base_env=target[2])
         if isinstance(target, tuple) and target and target[0] == 'ntclass':
